@@ -675,9 +675,10 @@ class DataReference(object):
                 # VV: this is neither a component nor a placeholder, it has to be a direct reference
                 return None
             else:
-                if self.method != self.LoopRef:
+                if self.method not in (self.LoopRef, self.LoopOutput):
                     producerIdentifiers = [placeholder['latest']]
                 else:
+                    # VV: aggregate references (:loopref AND :loopoutput) consume every instance of the placeholder
                     producerIdentifiers = placeholder['represents']
 
                 ret = []
